@@ -153,7 +153,9 @@ func (t *ticker) builtin() *object.Builtin {
 	})
 }
 
-func ltRoot(lt string, tree int) string { return filepath.Join(lt, fmt.Sprintf("t%d", tree), "outer", "root") }
+func ltRoot(lt string, tree int) string {
+	return filepath.Join(lt, fmt.Sprintf("t%d", tree), "outer", "root")
+}
 
 func evalSub(s *Sub, lt string, timeout time.Duration) *Obs {
 	o := &Obs{}
